@@ -6,6 +6,7 @@
 package c18
 
 import (
+	"github.com/obolnetwork/charon/core/fetcher"
 	"sync"
 
 	"crypto/sha256"
@@ -124,6 +125,8 @@ func init() {
 		}},
 		{"sigagg", func(k valgen.Kind) bool { return !k.Unsigned && k.Duty != core.DutySignature }, runSigAgg},
 		{"parsigex_fanout", func(k valgen.Kind) bool { return !k.Unsigned }, runParSigExFanout},
+		{"fetcher_fanout", func(k valgen.Kind) bool { return k.Unsigned && k.Duty == core.DutyAttester }, runFetcherFanout},
+		{"duty_definitions", func(k valgen.Kind) bool { return k.Unsigned && k.Duty == core.DutyAttester }, runDutyDefinitions},
 		{"validatorapi_fanout", func(k valgen.Kind) bool {
 			return !k.Unsigned && (k.Duty == core.DutyExit || k.Duty == core.DutySyncMessage || k.Duty == core.DutyPrepareAggregator || k.Duty == core.DutyPrepareSyncContribution)
 		}, runValidatorAPIFanout},
@@ -615,5 +618,115 @@ func runValidatorAPIFanout(t *testing.T, rt *rapid.T, k valgen.Kind, seed int64)
 	mustSame(rt, "validatorapi "+k.Name+": second subscriber after the first one mutated its argument", pristine, got.SignedData)
 	mustDisjoint(rt, "validatorapi "+k.Name+": arguments of two subscribers", a1[0], a2[0])
 	mustDisjoint(rt, "validatorapi "+k.Name+": the submitted object and a subscriber's argument", submitted, a2[0])
+	return true, ""
+}
+
+// ---------------------------------------------------------------- fetcher subscriber fan-out
+
+// runFetcherFanout lets the production fetcher fetch attestation data for two validators of one committee
+// (they share one beacon-node answer) and hand it to three subscribers; the first two mutate what they get.
+func runFetcherFanout(t *testing.T, rt *rapid.T, _ valgen.Kind, seed int64) (bool, string) {
+	ctx := context.Background()
+	bn := fakebn.New()
+	f, err := fetcher.New(bn, func(core.PubKey) string { return "0x0000000000000000000000000000000000000000" }, false, nil, 1<<40, false)
+	if err != nil {
+		rt.Fatalf("HARNESS-ERROR: %v", err)
+	}
+	var got [3]core.UnsignedDataSet
+	for i := 0; i < 3; i++ {
+		f.Subscribe(func(_ context.Context, _ core.Duty, set core.UnsignedDataSet) error {
+			got[i] = set
+			if i < 2 {
+				for k, d := range set {
+					valgen.Scribble(&d)
+					set[k] = d
+				}
+				if i == 1 {
+					for k := range set {
+						delete(set, k)
+						break
+					}
+				}
+			}
+			return nil
+		})
+	}
+	slot := uint64(seed%1000) + 1
+	defs := core.DutyDefinitionSet{}
+	for i, p := range []core.PubKey{pk(1), pk(2)} {
+		raw, _ := p.Bytes()
+		var bls eth2p0.BLSPubKey
+		copy(bls[:], raw)
+		defs[p] = core.NewAttesterDefinition(&eth2v1.AttesterDuty{PubKey: bls, Slot: eth2p0.Slot(slot), ValidatorIndex: eth2p0.ValidatorIndex(10 + i), CommitteeIndex: 3, CommitteeLength: 16, CommitteesAtSlot: 4, ValidatorCommitteeIndex: uint64(i)})
+	}
+	// what the beacon node answers (reference for "pristine")
+	resp, err := bn.AttestationData(ctx, &eth2api.AttestationDataOpts{Slot: eth2p0.Slot(slot), CommitteeIndex: 3})
+	if err != nil {
+		rt.Fatalf("HARNESS-ERROR: %v", err)
+	}
+	pristine := render(resp.Data)
+	if err := f.Fetch(ctx, core.NewAttesterDuty(slot), defs); err != nil {
+		return false, "fetch: " + firstWords(err)
+	}
+	if got[2] == nil {
+		return false, "not-delivered"
+	}
+	if len(got[2]) != 2 {
+		rt.Fatalf("ISOLATION: fetcher: the third subscriber received %d validators, want 2 (an earlier subscriber removed an entry from its own set)", len(got[2]))
+	}
+	for p, d := range got[2] {
+		ad, ok := d.(core.AttestationData)
+		if !ok {
+			rt.Fatalf("HARNESS-ERROR: unexpected type %T", d)
+		}
+		if g := render(&ad.Data); g != pristine {
+			rt.Fatalf("ISOLATION: fetcher: attestation data for %s reached the third subscriber changed by earlier subscribers\n was: %s\n now: %s", p[:10], pristine, g)
+		}
+	}
+	mustDisjoint(rt, "fetcher: arguments of subscribers 1 and 3", got[0], got[2])
+	mustDisjoint(rt, "fetcher: arguments of subscribers 2 and 3", got[1], got[2])
+	var two []core.UnsignedData
+	for _, d := range got[2] {
+		two = append(two, d)
+	}
+	mustDisjoint(rt, "fetcher: the two validators' data inside one subscriber's set", two[0], two[1])
+	return true, ""
+}
+
+// ---------------------------------------------------------------- duty definitions (scheduler hand-over)
+
+// runDutyDefinitions: DutyDefinitionSet.Clone is what the scheduler puts between its stored definitions
+// and every subscriber / GetDutyDefinition caller.
+func runDutyDefinitions(_ *testing.T, rt *rapid.T, _ valgen.Kind, seed int64) (bool, string) {
+	var bls eth2p0.BLSPubKey
+	bls[0], bls[1] = byte(seed), byte(seed>>8)
+	idx := eth2p0.ValidatorIndex(seed % 100000)
+	sets := map[string]core.DutyDefinitionSet{
+		"attester":       {pk(1): core.NewAttesterDefinition(&eth2v1.AttesterDuty{PubKey: bls, Slot: eth2p0.Slot(seed), ValidatorIndex: idx, CommitteeIndex: 2, CommitteeLength: 9, CommitteesAtSlot: 3, ValidatorCommitteeIndex: 4})},
+		"proposer":       {pk(1): core.NewProposerDefinition(&eth2v1.ProposerDuty{PubKey: bls, Slot: eth2p0.Slot(seed), ValidatorIndex: idx})},
+		"sync_committee": {pk(1): core.NewSyncCommitteeDefinition(&eth2v1.SyncCommitteeDuty{PubKey: bls, ValidatorIndex: idx, ValidatorSyncCommitteeIndices: []eth2p0.CommitteeIndex{eth2p0.CommitteeIndex(seed % 512), 7, 300}})},
+	}
+	for name, set := range sets {
+		pristine := render(set[pk(1)])
+		c1, err := set.Clone()
+		if err != nil {
+			rt.Fatalf("duty definition %s: clone: %v", name, err)
+		}
+		c2, err := set.Clone()
+		if err != nil {
+			rt.Fatalf("duty definition %s: clone: %v", name, err)
+		}
+		if g := render(c1[pk(1)]); g != pristine {
+			rt.Fatalf("ISOLATION: duty definition %s: a clone differs from its original: %s vs %s", name, g, pristine)
+		}
+		for k, d := range c1 {
+			valgen.Scribble(&d)
+			c1[k] = d
+		}
+		mustSame(rt, "duty definition "+name+": the stored definition after a holder of a clone mutated it", pristine, set[pk(1)])
+		mustSame(rt, "duty definition "+name+": a second clone after the first one was mutated", pristine, c2[pk(1)])
+		mustDisjoint(rt, "duty definition "+name+": two clones", c1, c2)
+		mustDisjoint(rt, "duty definition "+name+": a clone and the stored set", c2, set)
+	}
 	return true, ""
 }
